@@ -136,10 +136,15 @@ CHECKS["C15"] = dict(
          "toDigits_fromDigits), the digit loop of the to-base element under the contract n < b^(e+1) (to_base_elem_roundtrip), and the "
          "composed theorems number_compress_roundtrip / string_compress_roundtrip: the text the compression element produces lexes to ONE "
          "compressed token (kernel-checked alphabet facts: the delimiter is not in the alphabet, no duplicates), parses to one statement and "
-         "the transpiler model pushes exactly the original value. Tie: every codec function vs the model; compress -> run program -> compare, "
+         "the transpiler model pushes exactly the original value; dict_compress_roundtrip: a Lean model of the dynamic programme of øD "
+         "(optimal_compress + dictionary.word_index) and of the decompressor — every cell of the DP table decodes to the prefix it stands "
+         "for and is no longer than it, so the text written decompresses to exactly the string. Tie: every codec function vs the model "
+         "(the DP model vs the element included); compress -> run program -> compare, "
          "incl. dictionary compression with its length bound; the floating-point contract is evaluated on the real code for every case.",
     note=COMMON_NOTE + "T6: the exponent of the to-base loop comes from math.log; the theorem assumes the contract, the check measures it. "
-         "Partial: dictionary compression (the DP of optimal_compress) is covered by the oracle and correspondence only.",
+         "Dictionary compression is inside the theorem (dict_compress_roundtrip: for every string outside the compression alphabet, every "
+         "word list of at most 160^2 words and every max_word_len the DP's text decompresses to the string and is never longer); the bound "
+         "on the 23 113-word list is a hypothesis the kernel cannot evaluate (String.splitOn) and is checked on both sides every run.",
     technique="Lean 4 proof by strong induction on n / induction on digit lists, kernel evaluation of alphabet facts; differential correspondence; exec round-trip oracle",
     ref="§5 C15")
 CHECKS["C07"] = dict(
